@@ -154,6 +154,10 @@ func TestVerif(t *testing.T) {
 		if !deadline.IsZero() && time.Now().After(deadline) {
 			break
 		}
+		if os.Getenv("VERIF_STOP_AT_FIRST") != "" && len(wo.Replays)+len(wo.VerifyFresh) > 0 {
+			// evaluation of a deliberately broken tree: one violation settles it
+			break
+		}
 		seed := seedStart + uint64(i)
 		if outPath != "" {
 			// which run is in progress, for the driver, should the process die
